@@ -158,3 +158,9 @@ def _bmc(env, cfg):
         elif cfg.get('p') == 'one':
             env.claim(f"p_one_always_stores_newest_n{t + 1}", t in idx)
     env.canary('len_shifted', len(st) == n + 1)
+
+
+def thorough_extra():
+    """second engine (corroboration only): CrossHair on the real Interval / Batch / GeometricReservoir storages"""
+    from .crosshair_run import run
+    return run('ch_storages.py', per_condition_timeout=60)
